@@ -3,253 +3,330 @@ package main
 import (
 	"go/ast"
 	"go/token"
-	"strconv"
+	"sort"
 	"strings"
 )
 
-// C02: facts that behaviour cannot cheaply reveal or that one literal decides
-//   - chains/proposal.go: the EIP-712 `Types` table, primary type, domain name, where chain id / version / contract come
-//     from, the keys and value expressions of the per-proposal map, the "\x19\x01%s%s" framing
-//   - bridge.go / pallet.go: version constants, the pallet's verifying contract, the arguments handed to chains.ProposalsHash
-//   - both executors: what is hashed, what reaches NewSigning, what is submitted, and the signature assembly statements
+// C02: facts that behaviour cannot cheaply reveal or that one literal decides. Every fact is an Option: `none` when the
+// anchor is not found in a shape the extractor understands (then the correspondence ops carry the clause alone).
+// Anchors are found by SHAPE: keys of composite literals of go-ethereum's exported types (Types, PrimaryType, Domain/Name),
+// the map literal with string keys, calls of exported functions/methods (ProposalsHash, SetBytes, NewSigning,
+// ExecuteProposals, LeftPadBytes), never by names of locals, receivers or unexported helpers; constants are resolved.
+//   types, primaryType, domainName, proposalKeys, messageKey, framing   chains/proposal.go (whole file: a helper may hold them)
+//   evmVersion, palletVersion, palletContract                            the constants handed to chains.ProposalsHash
+//   evmFlow, substrateFlow                                               Execute: what is hashed, what reaches NewSigning, what is watched
+//   evmSig, substrateSig                                                 the signature assembly as data: (part, width) list
 func init() {
 	extractors["C02"] = func(o *Out) {
 		w := &o.Lean
 		// ---------------------------------------------------------------- chains/proposal.go
 		f := o.ParseFile("chains/proposal.go")
-		fd := FindFunc(f, "", "ProposalsHash")
+		consts := a2Consts(f)
 		type fld struct{ n, t string }
 		types := map[string][]fld{}
-		typeOrder := []string{}
-		primary, domName, domChain, domVer, domContract, frame := "", "", "", "", "", ""
-		msgKeys := [][2]string{}
-		msgTop := ""
-		unq := func(e ast.Expr) string {
-			if b, ok := e.(*ast.BasicLit); ok && b.Kind == token.STRING {
-				s, err := strconv.Unquote(b.Value)
-				if err == nil {
-					return s
-				}
-			}
-			return "?" + Src(e)
-		}
-		if fd != nil {
-			Walk(fd.Body, func(n ast.Node) bool {
+		typesOK, typesSeen := true, false
+		primary, primaryOK := "", false
+		domName, domOK := "", false
+		keys, keysOK := []string{}, false
+		msgKey, msgOK := "", false
+		frame, frameOK := "", false
+		if f != nil {
+			Walk(f, func(n ast.Node) bool {
 				switch x := n.(type) {
 				case *ast.KeyValueExpr:
-					switch Src(x.Key) {
+					switch a2Ident(x.Key) {
 					case "Types":
-						if cl, ok := x.Value.(*ast.CompositeLit); ok {
-							for _, el := range cl.Elts {
-								kv, ok := el.(*ast.KeyValueExpr)
+						cl, ok := x.Value.(*ast.CompositeLit)
+						if !ok || typesSeen {
+							return true
+						}
+						typesSeen = true
+						for _, el := range cl.Elts {
+							kv, ok := el.(*ast.KeyValueExpr)
+							if !ok {
+								typesOK = false
+								continue
+							}
+							name, ok := a2Str(kv.Key, consts)
+							fl, ok2 := kv.Value.(*ast.CompositeLit)
+							if !ok || !ok2 {
+								typesOK = false
+								continue
+							}
+							types[name] = []fld{}
+							for _, fe := range fl.Elts {
+								fc, ok := fe.(*ast.CompositeLit)
 								if !ok {
+									typesOK = false
 									continue
 								}
-								name := unq(kv.Key)
-								typeOrder = append(typeOrder, name)
-								if fl, ok := kv.Value.(*ast.CompositeLit); ok {
-									for _, fe := range fl.Elts {
-										if fc, ok := fe.(*ast.CompositeLit); ok {
-											var one fld
-											for _, p := range fc.Elts {
-												if pkv, ok := p.(*ast.KeyValueExpr); ok {
-													if Src(pkv.Key) == "Name" {
-														one.n = unq(pkv.Value)
-													}
-													if Src(pkv.Key) == "Type" {
-														one.t = unq(pkv.Value)
-													}
-												}
-											}
-											types[name] = append(types[name], one)
+								var one fld
+								got := 0
+								for i, p := range fc.Elts {
+									if pkv, ok := p.(*ast.KeyValueExpr); ok {
+										v, ok := a2Str(pkv.Value, consts)
+										if !ok {
+											typesOK = false
 										}
+										if a2Ident(pkv.Key) == "Name" {
+											one.n = v
+											got++
+										}
+										if a2Ident(pkv.Key) == "Type" {
+											one.t = v
+											got++
+										}
+									} else if v, ok := a2Str(p, consts); ok { // positional {name, type}
+										if i == 0 {
+											one.n = v
+										} else {
+											one.t = v
+										}
+										got++
 									}
 								}
+								if got != 2 {
+									typesOK = false
+								}
+								types[name] = append(types[name], one)
 							}
 						}
 					case "PrimaryType":
-						primary = unq(x.Value)
-					case "Name":
-						if _, isLit := x.Value.(*ast.BasicLit); isLit && domName == "" && strings.Contains(Src(x.Value), "Bridge") {
-							domName = unq(x.Value)
+						primary, primaryOK = a2Str(x.Value, consts)
+					case "Domain":
+						if cl, ok := x.Value.(*ast.CompositeLit); ok {
+							for _, el := range cl.Elts {
+								if kv, ok := el.(*ast.KeyValueExpr); ok && a2Ident(kv.Key) == "Name" {
+									domName, domOK = a2Str(kv.Value, consts)
+								}
+							}
 						}
-					case "ChainId":
-						domChain = Src(x.Value)
-					case "Version":
-						domVer = Src(x.Value)
-					case "VerifyingContract":
-						domContract = Src(x.Value)
 					}
 				case *ast.CompositeLit:
-					// map[string]interface{}{ "originDomainID": …, … }
-					if Src(x.Type) == "map[string]interface{}" {
+					t := Src(x.Type)
+					if (t == "map[string]interface{}" || t == "map[string]any") && !keysOK && len(x.Elts) > 0 {
+						keysOK = true
 						for _, el := range x.Elts {
 							if kv, ok := el.(*ast.KeyValueExpr); ok {
-								msgKeys = append(msgKeys, [2]string{unq(kv.Key), Src(kv.Value)})
+								k, ok := a2Str(kv.Key, consts)
+								keysOK = keysOK && ok
+								keys = append(keys, k)
 							}
 						}
 					}
-					if Src(x.Type) == "apitypes.TypedDataMessage" {
-						for _, el := range x.Elts {
-							if kv, ok := el.(*ast.KeyValueExpr); ok {
-								msgTop = unq(kv.Key) + "=" + Src(kv.Value)
-							}
+					if strings.HasSuffix(t, "TypedDataMessage") && len(x.Elts) == 1 {
+						if kv, ok := x.Elts[0].(*ast.KeyValueExpr); ok {
+							msgKey, msgOK = a2Str(kv.Key, consts)
 						}
 					}
 				case *ast.CallExpr:
-					if Src(x.Fun) == "fmt.Sprintf" && len(x.Args) == 3 {
-						frame = Src(x.Args[0]) + "|" + Src(x.Args[1]) + "|" + Src(x.Args[2])
+					if a2Qualified(x) == "fmt.Sprintf" && len(x.Args) == 3 {
+						if s, ok := a2Str(x.Args[0], consts); ok && strings.HasPrefix(s, "\x19") {
+							frame, frameOK = s, true
+						}
 					}
 				}
 				return true
 			})
 		}
-		o.Facts["types_order_in_source"] = typeOrder
-		o.Facts["primary"] = primary
-		w.WriteString("/-- the `apitypes.Types` literal of chains/proposal.go (type name ↦ [(field name, field type)]), sorted by type name -/\n")
-		w.WriteString("def types : List (String × List (String × String)) := [")
-		names := append([]string{}, typeOrder...)
-		sortStrings(names)
-		for i, n := range names {
-			if i > 0 {
-				w.WriteString(",")
-			}
-			w.WriteString("\n  (" + LeanStr(n) + ", [")
-			for j, fl := range types[n] {
-				if j > 0 {
-					w.WriteString(", ")
-				}
-				w.WriteString("(" + LeanStr(fl.n) + ", " + LeanStr(fl.t) + ")")
-			}
-			w.WriteString("])")
+		names := []string{}
+		for n := range types {
+			names = append(names, n)
 		}
-		w.WriteString("]\n\n")
-		w.WriteString("def primaryType : String := " + LeanStr(primary) + "\n")
-		w.WriteString("def domainName : String := " + LeanStr(domName) + "\n")
-		w.WriteString("/-- source expressions filling the domain: chain id, version, verifying contract -/\n")
-		w.WriteString("def domainSources : List String := " + LeanStrList([]string{domChain, domVer, domContract}) + "\n")
-		w.WriteString("/-- keys and value expressions of the per-proposal map, in source order -/\n")
-		w.WriteString("def proposalMap : List (String × String) := [")
-		for i, kv := range msgKeys {
-			if i > 0 {
-				w.WriteString(", ")
+		sort.Strings(names)
+		tt := []string{}
+		for _, n := range names {
+			fs := [][2]string{}
+			for _, fl := range types[n] {
+				fs = append(fs, [2]string{fl.n, fl.t})
 			}
-			w.WriteString("(" + LeanStr(kv[0]) + ", " + LeanStr(kv[1]) + ")")
+			tt = append(tt, "("+LeanStr(n)+", "+a2LeanPairs(fs)+")")
 		}
-		w.WriteString("]\n")
-		w.WriteString("def message : String := " + LeanStr(msgTop) + "\n")
-		w.WriteString("/-- `fmt.Sprintf(<format>, <a>, <b>)` that frames the digest input -/\n")
-		w.WriteString("def framing : String := " + LeanStr(frame) + "\n\n")
+		typesOK = typesOK && typesSeen
+		if !typesOK {
+			o.Unavailable("types", "no `Types:` composite literal of string literals/constants in chains/proposal.go")
+		}
+		w.WriteString("/-- the `apitypes.Types` literal (type name ↦ [(field name, field type)]), sorted by type name -/\n")
+		w.WriteString("def types : Option (List (String × List (String × String))) := " + LeanOpt(typesOK, "["+strings.Join(tt, ",\n  ")+"]") + "\n\n")
+		opt := func(name, doc string, ok bool, term, why string) {
+			if !ok {
+				o.Unavailable(name, why)
+			}
+			w.WriteString("/-- " + doc + " -/\ndef " + name + " : Option String := " + LeanOpt(ok, term) + "\n")
+		}
+		opt("primaryType", "`PrimaryType:` of the typed data", primaryOK, LeanStr(primary), "no `PrimaryType:` string in chains/proposal.go")
+		opt("domainName", "`Name:` inside `Domain:`", domOK, LeanStr(domName), "no `Domain: …{Name: <string>}` in chains/proposal.go")
+		opt("messageKey", "the single key of the `TypedDataMessage` literal", msgOK, LeanStr(msgKey), "no one-entry TypedDataMessage literal")
+		opt("framing", "format string that frames the digest input (fmt.Sprintf with two arguments)", frameOK, a2LeanStrEsc(frame), "no fmt.Sprintf whose format starts with \\x19")
+		if !keysOK {
+			o.Unavailable("proposalKeys", "no map[string]interface{} literal with string keys")
+		}
+		w.WriteString("/-- keys of the per-proposal map literal, in source order -/\ndef proposalKeys : Option (List String) := " + LeanOpt(keysOK, LeanStrList(keys)) + "\n\n")
 
-		// ---------------------------------------------------------------- constants and call sites
-		constOf := func(file *ast.File, name string) string {
-			v := ""
+		// ---------------------------------------------------------------- constants handed to chains.ProposalsHash
+		hashArgs := func(file *ast.File) (ver string, verOK bool, contract string, contractOK bool) {
+			cs := a2Consts(file)
 			if file == nil {
-				return v
+				return
 			}
-			for _, d := range file.Decls {
-				if gd, ok := d.(*ast.GenDecl); ok && gd.Tok == token.CONST {
-					for _, sp := range gd.Specs {
-						if vs, ok := sp.(*ast.ValueSpec); ok {
-							for i, id := range vs.Names {
-								if id.Name == name && i < len(vs.Values) {
-									v = unq(vs.Values[i])
-								}
-							}
-						}
-					}
+			Walk(file, func(n ast.Node) bool {
+				if c, ok := n.(*ast.CallExpr); ok && a2Method(c) == "ProposalsHash" && len(c.Args) == 4 {
+					ver, verOK = a2Str(c.Args[3], cs)
+					contract, contractOK = a2Str(c.Args[2], cs)
 				}
-			}
-			return v
-		}
-		callArgs := func(fn *ast.FuncDecl, callee string) string {
-			r := ""
-			if fn != nil {
-				Walk(fn.Body, func(n ast.Node) bool {
-					if c, ok := n.(*ast.CallExpr); ok && Src(c.Fun) == callee {
-						as := []string{}
-						for _, a := range c.Args {
-							as = append(as, Src(a))
-						}
-						r = strings.Join(as, " | ")
-					}
-					return true
-				})
-			}
-			return r
+				return true
+			})
+			return
 		}
 		bf := o.ParseFile("chains/evm/calls/contracts/bridge/bridge.go")
 		pf := o.ParseFile("chains/substrate/pallet/pallet.go")
-		w.WriteString("def evmBridgeVersion : String := " + LeanStr(constOf(bf, "bridgeVersion")) + "\n")
-		w.WriteString("def palletBridgeVersion : String := " + LeanStr(constOf(pf, "bridgeVersion")) + "\n")
-		w.WriteString("def palletVerifyingContract : String := " + LeanStr(constOf(pf, "verifyingContract")) + "\n")
-		w.WriteString("def evmHashCall : String := " + LeanStr(callArgs(FindFunc(bf, "BridgeContract", "ProposalsHash"), "chains.ProposalsHash")) + "\n")
-		w.WriteString("def palletHashCall : String := " + LeanStr(callArgs(FindFunc(pf, "Pallet", "ProposalsHash"), "chains.ProposalsHash")) + "\n\n")
+		ev, evOK, _, _ := hashArgs(bf)
+		pv, pvOK, pc, pcOK := hashArgs(pf)
+		opt("evmVersion", "the version constant BridgeContract hands to chains.ProposalsHash", evOK, LeanStr(ev), "4th argument of the ProposalsHash call in bridge.go is not a string constant")
+		opt("palletVersion", "the version constant Pallet hands to chains.ProposalsHash", pvOK, LeanStr(pv), "4th argument of the ProposalsHash call in pallet.go is not a string constant")
+		opt("palletContract", "the verifying contract constant Pallet hands to chains.ProposalsHash", pcOK, LeanStr(pc), "3rd argument of the ProposalsHash call in pallet.go is not a string constant")
+		w.WriteString("\n")
 
-		// ---------------------------------------------------------------- executors: data flow digest → signing, batch → submission
-		flow := func(path, execFn, submitFn, submitCallee string) (hashed, setBytes, signingMsg, submitted string, sig []string) {
+		// ---------------------------------------------------------------- executors
+		flow := func(name, path string) {
 			ef := o.ParseFile(path)
 			ex := FindFunc(ef, "Executor", "Execute")
+			hashVar, hashed, sbRecv, sbArg, signArg, watched := "", "", "", "", "", ""
 			if ex != nil {
+				recv := ""
+				if ex.Recv != nil && len(ex.Recv.List) == 1 && len(ex.Recv.List[0].Names) == 1 {
+					recv = ex.Recv.List[0].Names[0].Name
+				}
+				bestArgs := 0
 				Walk(ex.Body, func(n ast.Node) bool {
 					if as, ok := n.(*ast.AssignStmt); ok && len(as.Rhs) == 1 && len(as.Lhs) >= 1 {
-						if c, ok := as.Rhs[0].(*ast.CallExpr); ok && Src(c.Fun) == "e.bridge.ProposalsHash" && len(c.Args) == 1 {
-							hashed = Src(as.Lhs[0]) + "|" + Src(c.Args[0])
+						if c, ok := as.Rhs[0].(*ast.CallExpr); ok && a2Method(c) == "ProposalsHash" && len(c.Args) == 1 {
+							hashVar, hashed = a2Ident(as.Lhs[0]), Src(c.Args[0])
 						}
 					}
 					if c, ok := n.(*ast.CallExpr); ok {
-						switch Src(c.Fun) {
-						case "msg.SetBytes":
-							if len(c.Args) == 1 {
-								setBytes = Src(c.Args[0])
+						switch a2Method(c) {
+						case "SetBytes":
+							if sel, ok := c.Fun.(*ast.SelectorExpr); ok && len(c.Args) == 1 {
+								sbRecv, sbArg = a2Ident(sel.X), a2Ident(c.Args[0])
 							}
-						case "signing.NewSigning":
+						case "NewSigning":
 							if len(c.Args) > 0 {
-								signingMsg = Src(c.Args[0])
+								signArg = a2Ident(c.Args[0])
 							}
-						case "e.watchExecution":
-							if len(c.Args) > 2 {
-								submitted = Src(c.Args[2])
+						default:
+							// the watcher: a call of a method of the same receiver with the most arguments (≥ 4)
+							if sel, ok := c.Fun.(*ast.SelectorExpr); ok && recv != "" && a2Ident(sel.X) == recv && len(c.Args) >= 4 && len(c.Args) > bestArgs {
+								bestArgs = len(c.Args)
+								watched = Src(c.Args[2])
 							}
 						}
 					}
 					return true
 				})
 			}
-			sf := FindFunc(ef, "Executor", submitFn)
-			if sf != nil {
-				for _, st := range sf.Body.List {
-					switch s := st.(type) {
-					case *ast.AssignStmt:
-						if Src(s.Lhs[0]) == "sig" || strings.HasPrefix(Src(s.Lhs[0]), "sig[") {
-							sig = append(sig, Src(s))
+			ok := hashVar != "" && hashed != "" && sbRecv != "" && sbArg != "" && signArg != "" && watched != ""
+			if !ok {
+				o.Unavailable(name, "Execute: hash assignment / SetBytes / NewSigning / watcher call not all found as direct statements")
+			}
+			w.WriteString("/-- Execute: [hash variable, hashed argument, SetBytes argument, SetBytes receiver, first argument of NewSigning, what the watcher is handed] -/\n")
+			w.WriteString("def " + name + " : Option (List String) := " + LeanOpt(ok, LeanStrList([]string{hashVar, hashed, sbArg, sbRecv, signArg, watched})) + "\n")
+			o.Facts[name] = []string{hashVar, hashed, sbArg, sbRecv, signArg, watched}
+		}
+		flow("evmFlow", "chains/evm/executor/executor.go")
+		flow("substrateFlow", "chains/substrate/executor/executor.go")
+
+		sigAsm := func(name, path string) {
+			ef := o.ParseFile(path)
+			cs := a2Consts(ef)
+			parts := []string{}
+			ok := false
+			for _, fd := range a2FuncsCalling(ef, "LeftPadBytes") {
+				buf := ""
+				good := true
+				for _, st := range fd.Body.List {
+					as, isAs := st.(*ast.AssignStmt)
+					if !isAs || len(as.Lhs) != 1 || len(as.Rhs) != 1 {
+						continue
+					}
+					// X = append(X[:] | X, E...)
+					if c, isCall := as.Rhs[0].(*ast.CallExpr); isCall && a2Ident(c.Fun) == "append" && len(c.Args) == 2 && c.Ellipsis != token.NoPos {
+						if buf == "" {
+							buf = a2Ident(as.Lhs[0])
+						}
+						switch e := c.Args[1].(type) {
+						case *ast.CallExpr:
+							if a2Method(e) == "LeftPadBytes" && len(e.Args) == 2 {
+								which := ""
+								if sel, ok := e.Args[0].(*ast.SelectorExpr); ok {
+									which = sel.Sel.Name
+								}
+								n, okN := a2Int(e.Args[1], cs)
+								good = good && okN && (which == "R" || which == "S")
+								parts = append(parts, "("+LeanStr(which)+", "+utoa(n)+")")
+							} else {
+								good = false
+							}
+						case *ast.SelectorExpr:
+							parts = append(parts, "("+LeanStr(e.Sel.Name)+", 0)")
+						default:
+							good = false
+						}
+						continue
+					}
+					// X[len(X)-1] += K   |   X[len(X)-1] = X[len(X)-1] + K
+					if ix, isIx := as.Lhs[0].(*ast.IndexExpr); isIx && buf != "" && a2Ident(ix.X) == buf && strings.HasPrefix(Src(ix.Index), "len(") {
+						var k ast.Expr
+						if as.Tok == token.ADD_ASSIGN {
+							k = as.Rhs[0]
+						} else if be, isBe := as.Rhs[0].(*ast.BinaryExpr); isBe && be.Op == token.ADD && as.Tok == token.ASSIGN {
+							k = be.Y
+							if Src(be.Y) == Src(as.Lhs[0]) {
+								k = be.X
+							}
+						}
+						if k != nil {
+							if n, okN := a2Int(k, cs); okN {
+								parts = append(parts, "(\"last+\", "+utoa(n)+")")
+							} else {
+								good = false
+							}
 						}
 					}
 				}
-				Walk(sf.Body, func(n ast.Node) bool {
-					if c, ok := n.(*ast.CallExpr); ok && Src(c.Fun) == submitCallee && len(c.Args) >= 2 {
-						sig = append(sig, "submit("+Src(c.Args[0])+", "+Src(c.Args[1])+")")
+				// the submission takes the assembled buffer
+				Walk(fd.Body, func(n ast.Node) bool {
+					if c, isCall := n.(*ast.CallExpr); isCall && a2Method(c) == "ExecuteProposals" && len(c.Args) >= 2 {
+						if buf != "" && a2Ident(c.Args[1]) == buf {
+							parts = append(parts, "(\"submit\", 0)")
+						} else {
+							parts = append(parts, "(\"submit-other\", 0)")
+						}
 					}
 					return true
 				})
+				ok = good && buf != "" && len(parts) > 0
+				break
 			}
-			return
+			if !ok {
+				o.Unavailable(name, "signature assembly not found as direct append statements in the function that calls LeftPadBytes")
+			}
+			w.WriteString("/-- signature assembly as data: appended parts with their pad width, the addition to the last byte, the submission -/\n")
+			w.WriteString("def " + name + " : Option (List (String × Nat)) := " + LeanOpt(ok, "["+strings.Join(parts, ", ")+"]") + "\n")
 		}
-		h, sb, sm, su, sg := flow("chains/evm/executor/executor.go", "Execute", "executeBatch", "e.bridge.ExecuteProposals")
-		w.WriteString("/-- Execute: `<var>|<arg>` of `<var>, err := e.bridge.ProposalsHash(<arg>)`, argument of msg.SetBytes, first argument of NewSigning, what is handed to watchExecution for submission -/\n")
-		w.WriteString("def evmFlow : List String := " + LeanStrList([]string{h, sb, sm, su}) + "\n")
-		w.WriteString("def evmSig : List String := " + LeanStrList(sg) + "\n")
-		h, sb, sm, su, sg = flow("chains/substrate/executor/executor.go", "Execute", "executeProposal", "e.bridge.ExecuteProposals")
-		w.WriteString("def substrateFlow : List String := " + LeanStrList([]string{h, sb, sm, su}) + "\n")
-		w.WriteString("def substrateSig : List String := " + LeanStrList(sg) + "\n")
-		o.Facts["evm_flow"] = []string{h, sb, sm, su}
+		sigAsm("evmSig", "chains/evm/executor/executor.go")
+		sigAsm("substrateSig", "chains/substrate/executor/executor.go")
 	}
 }
 
-func sortStrings(xs []string) {
-	for i := 1; i < len(xs); i++ {
-		for j := i; j > 0 && xs[j] < xs[j-1]; j-- {
-			xs[j], xs[j-1] = xs[j-1], xs[j]
-		}
+func utoa(n uint64) string {
+	if n == 0 {
+		return "0"
 	}
+	s := ""
+	for n > 0 {
+		s = string(rune('0'+n%10)) + s
+		n /= 10
+	}
+	return s
 }
